@@ -9,10 +9,12 @@ import Verif.Model.SCEP
 
   Layout: every clause is first proved for an arbitrary dispatch table `F : Facts` under the
   condition on the tables that makes it true (`T_csr ⊆ T_checked`, "no accepted type reaches the
-  CertRep case"); the tables of the tree as it stands (`asCoded`) are then decided.  Where the
-  tree falsifies the clause the negation is proved with the concrete witness, next to a
-  `_partial` theorem with the exact extra hypothesis, and the full-strength statement is proved
-  for the repaired table (`withCheckOnEveryCsrType`, `withCertRepRefused`).
+  CertRep case"); the tables of the tree as it stands (`asCoded`, after the fix commits 3a8a2fc and
+  1587447) are then decided, which gives the clauses at full strength (`challenge_required`,
+  `no_crash_on_type`).  The tables of the tree before those commits (`asCodedBefore`) falsified both
+  clauses: the negations with their concrete witnesses (D4, D5) and the `_partial` theorems with the
+  exact extra hypothesis are kept as historic theorems, and `asCoded_is_the_repair` says that the
+  current tables are exactly the two general repairs applied to the old ones.
 -/
 namespace Verif.SCEP
 open Verif
@@ -228,45 +230,57 @@ def d4Req : Req :=
     rn := .none, fi := .none, innerOk := true, decOk := true, env := .csr, cp := [],
     degen := none, signOk := true, encOk := true }
 
-/-- **Refutation (D4)**: with the tables of the tree as it stands the clause is false —
-    `UpdateReq ∈ T_csr \ T_checked`: the request above is answered with a certificate. -/
-theorem challenge_required_refuted : ¬ ChallengeRequired asCoded := by
+/-- **`challenge_required`, full strength, for the tree as it stands**: for every message type,
+    challenge value, validation method and encoding, when a secret or a challenge webhook is
+    configured, a certificate in the reply or in the database implies that the secret or webhook
+    accepted the request's challenge. (`T_csr ⊆ T_checked` is decided on the tables the `facts` line
+    re-extracts from the source on every run.) -/
+theorem challenge_required : ChallengeRequired asCoded := by
+  intro c q res _ hrun hc
+  exact challenge_required_of_subset asCoded (by decide) c q res hrun hc
+
+/-- The current tables are exactly the old ones with the two general repairs applied
+    (challenge checked for every type that yields a CSR; CertRep case refused). -/
+theorem asCoded_is_the_repair :
+    asCoded = withCertRepRefused (withCheckOnEveryCsrType asCodedBefore) := by decide
+
+/-- **Historic refutation (D4, fixed by 3a8a2fc)**: with the tables before the fix the clause was
+    false — `UpdateReq ∈ T_csr \ T_checked`: the request above was answered with a certificate. -/
+theorem challenge_required_refuted_before : ¬ ChallengeRequired asCodedBefore := by
   intro h
   have := h d4Config d4Req
     { out := .reply successReply, hookCalls := 0, stored := 1 } (by decide) (by decide) (by decide)
   simp [Accepted, selectValidationMethod, challengeHooks, d4Config, d4Req] at this
 
-/-- **Partial (as coded)**: for every request whose message type is not `UpdateReq` the clause holds. -/
-theorem challenge_required_partial (c : Config) (q : Req) (res : Result)
+/-- **Historic partial**: before the fix the clause held for every request whose message type is
+    not `UpdateReq`. -/
+theorem challenge_required_partial_before (c : Config) (q : Req) (res : Result)
     (hne : q.mt ≠ some tUpdateReq)
-    (hrun : pkiOperation asCoded c q = .val res) (hc : res.carriesCert = true) :
+    (hrun : pkiOperation asCodedBefore c q = .val res) (hc : res.carriesCert = true) :
     Accepted c q := by
-  apply challenge_required_at asCoded c q res _ hrun hc
+  apply challenge_required_at asCodedBefore c q res _ hrun hc
   intro t hmt hin
   have : t = tRenewalReq ∨ t = tUpdateReq ∨ t = tPKCSReq := by
-    simpa [asCoded] using hin
+    simpa [asCodedBefore] using hin
   rcases this with rfl | rfl | rfl
   · decide
   · exact absurd hmt hne
   · decide
 
-/-- **Full strength for the repaired condition** (validate for every type that yields a CSR):
-    the clause holds for every message type. One-line change of the table; `by decide`-free because
-    the subset condition holds by construction. -/
-theorem challenge_required_fixed : ChallengeRequired (withCheckOnEveryCsrType asCoded) := by
+/-- The general repair (validate for every type that yields a CSR) makes the clause true whatever
+    the CSR set is: the subset condition holds by construction. -/
+theorem challenge_required_fixed (F : Facts) : ChallengeRequired (withCheckOnEveryCsrType F) := by
   intro c q res _ hrun hc
   refine challenge_required_of_subset _ ?_ c q res hrun hc
   intro t ht
   simp only [mustCheck, withCheckOnEveryCsrType] at ht ⊢
   simp [ht]
 
-/-- The same, for the minimal patch (`|| msg.MessageType == smallscep.UpdateReq`). -/
-theorem challenge_required_minimal_patch :
-    ChallengeRequired { asCoded with checked := [tRenewalReq, tUpdateReq, tPKCSReq] } := by
-  intro c q res _ hrun hc
-  exact challenge_required_of_subset _ (by decide) c q res hrun hc
+/-- The witness of D4 on the tree as it stands: the same request is now refused. -/
+example : pkiOperation asCoded d4Config d4Req
+    = .val { out := .reply failureReply, hookCalls := 0, stored := 0 } := by decide
 
-/-- The hypotheses of `challenge_required_partial` are met by a real enrolment
+/-- The hypotheses of `challenge_required` are met by a real enrolment
     (PKCSReq, right challenge, certificate issued). -/
 example : ∃ res, pkiOperation asCoded d4Config { d4Req with mt := some tPKCSReq, cp := d4Config.secret } = .val res
     ∧ res.carriesCert = true :=
@@ -293,9 +307,9 @@ theorem accepted_enrols (c : Config) (q : Req) (t : MsgType)
   · refine ⟨n, ?_⟩
     simp [pkiOperation, parse, parseMessageType, decrypt, mustCheck, signCSR, asCoded, h1, h2, h3, h4, h5, h6,
       h7, h8, h9, h10, hv, tPKCSReq, tRenewalReq, tUpdateReq, tCertRep, tCertPoll, tGetCert, tGetCRL]
-  · refine ⟨0, ?_⟩
+  · refine ⟨n, ?_⟩
     simp [pkiOperation, parse, parseMessageType, decrypt, mustCheck, signCSR, asCoded, h1, h2, h3, h4, h5, h6,
-      h7, h8, h9, h10, tPKCSReq, tRenewalReq, tUpdateReq, tCertRep, tCertPoll, tGetCert, tGetCRL]
+      h7, h8, h9, h10, hv, tPKCSReq, tRenewalReq, tUpdateReq, tCertRep, tCertPoll, tGetCert, tGetCRL]
 
 /-! ## 2. `no_crash_on_type` -/
 
@@ -357,46 +371,55 @@ def d5Req : Req :=
     rn := .ok, fi := .none, innerOk := true, decOk := true, env := .nocsr, cp := [],
     degen := some 1, signOk := false, encOk := true }
 
-/-- **Refutation (D5)**: as coded, a `CertRep` request that passes the parser aborts the handler. -/
-theorem no_crash_on_type_refuted : ¬ NoCrashOnType asCoded := by
+/-- **`no_crash_on_type`, full strength, for the tree as it stands**: no request, of whatever
+    message type the parser accepts (or not), aborts the PKI operation. -/
+theorem no_crash_on_type : NoCrashOnType asCoded := by
+  intro c q
+  exact no_crash_of_tables asCoded (by
+    intro t ht
+    have : t = tCertRep ∨ t = tRenewalReq ∨ t = tUpdateReq ∨ t = tPKCSReq := by
+      simpa [asCoded] using ht
+    rcases this with rfl | rfl | rfl | rfl <;> decide) c q
+
+/-- **Historic refutation (D5, fixed by 1587447)**: before the fix a `CertRep` request that passes
+    the parser aborted the handler. -/
+theorem no_crash_on_type_refuted_before : ¬ NoCrashOnType asCodedBefore := by
   intro h
   exact h { secret := [], hooks := [] } d5Req (by decide)
 
-/-- **Partial (as coded)**: every request whose type is not `CertRep` is handled without abort. -/
-theorem no_crash_on_type_partial (c : Config) (q : Req) (hne : q.mt ≠ some tCertRep) :
-    pkiOperation asCoded c q ≠ .crash := by
+/-- The general repair (the CertRep case returns an error) applied to the old tables. -/
+theorem no_crash_on_type_fixed : NoCrashOnType (withCertRepRefused asCodedBefore) := by
+  intro c q
+  exact no_crash_of_tables _ (by
+    intro t ht
+    have : t = tCertRep ∨ t = tRenewalReq ∨ t = tUpdateReq ∨ t = tPKCSReq := by
+      simpa [withCertRepRefused, asCodedBefore] using ht
+    rcases this with rfl | rfl | rfl | rfl <;> decide) c q
+
+/-- **Historic partial**: before the fix every request whose type is not `CertRep` was handled
+    without abort. -/
+theorem no_crash_on_type_partial_before (c : Config) (q : Req) (hne : q.mt ≠ some tCertRep) :
+    pkiOperation asCodedBefore c q ≠ .crash := by
   -- same run under the table that refuses CertRep: the two agree off CertRep
-  have hfix : pkiOperation (withCertRepRefused asCoded) c q ≠ .crash :=
-    no_crash_of_tables _ (by
-      intro t ht
-      have : t = tCertRep ∨ t = tRenewalReq ∨ t = tUpdateReq ∨ t = tPKCSReq := by
-        simpa [withCertRepRefused, asCoded] using ht
-      rcases this with rfl | rfl | rfl | rfl <;> decide) c q
-  have hsame : pkiOperation asCoded c q = pkiOperation (withCertRepRefused asCoded) c q := by
+  have hfix : pkiOperation (withCertRepRefused asCodedBefore) c q ≠ .crash := no_crash_on_type_fixed c q
+  have hsame : pkiOperation asCodedBefore c q = pkiOperation (withCertRepRefused asCodedBefore) c q := by
     unfold pkiOperation
     cases hmt : q.mt with
     | none => rfl
     | some t =>
       have htne : t ≠ tCertRep := fun e => hne (by rw [hmt, e])
-      have hdec : decrypt asCoded q t = decrypt (withCertRepRefused asCoded) q t := by
+      have hdec : decrypt asCodedBefore q t = decrypt (withCertRepRefused asCodedBefore) q t := by
         unfold decrypt
-        simp [withCertRepRefused, asCoded, htne]
-      have hparse : parse asCoded q = parse (withCertRepRefused asCoded) q := rfl
+        simp [withCertRepRefused, asCodedBefore, htne]
+      have hparse : parse asCodedBefore q = parse (withCertRepRefused asCodedBefore) q := rfl
       simp only [hdec, hparse]
       rfl
   rw [hsame]; exact hfix
 
-/-- **Full strength for the repaired dispatch** (the CertRep case returns an error). -/
-theorem no_crash_on_type_fixed : NoCrashOnType (withCertRepRefused asCoded) := by
-  intro c q
-  exact no_crash_of_tables _ (by
-    intro t ht
-    have : t = tCertRep ∨ t = tRenewalReq ∨ t = tUpdateReq ∨ t = tPKCSReq := by
-      simpa [withCertRepRefused, asCoded] using ht
-    rcases this with rfl | rfl | rfl | rfl <;> decide) c q
-
-/-- The partial theorem is not vacuous: a non-CertRep request exists that is fully processed. -/
-example : pkiOperation asCoded d4Config d4Req ≠ .crash ∧ d4Req.mt ≠ some tCertRep := by decide
+/-- The witness of D5 on the tree as it stands: refused with HTTP 500, no abort; and a CSR-type
+    request is fully processed (the theorem is about real runs). -/
+example : pkiOperation asCoded { secret := [], hooks := [] } d5Req = .val refused ∧
+    pkiOperation asCoded d4Config d4Req ≠ .crash := by decide
 
 /-! ## 3. `reply_shapes` -/
 
